@@ -85,6 +85,12 @@ func genOptsFor(profile string) GenOpts {
 	case "range", "agg", "bin", "func":
 		o.Focus = profile
 		o.MaxDepth = 2
+	case "nans":
+		// aggregations over data in which one sample in six is NaN (and none is infinite)
+		o.Focus = "agg"
+		o.MaxDepth = 2
+		o.Specials = 6
+		o.OnlyNaN = true
 	}
 	if strings.HasPrefix(profile, "epoch:") {
 		// any profile with the window shifted so that one of its steps is at -1ms
